@@ -1,5 +1,6 @@
 """Per-property checks. Each check fills a Report; verdict policy and evidence are in core.Report.finish()."""
 import json
+import time
 import os
 
 from . import core
@@ -457,6 +458,22 @@ def _lite(spec, tier):
         spec.rand_execs = 0
         spec.rand_grid = []
         spec.tail_execs = 10
+        spec.tail_boost = list(spec.tail_boost)[:2]
+        spec.tail_boost_execs = min(spec.tail_boost_execs, 1500)
+        spec.mc_cfgs = list(spec.mc_cfgs)[:1]
+    return spec
+
+
+def _half(spec, tier):
+    """the specifications whose own properties are closest to C03 / C04: every second configuration, no random part"""
+    if tier == "quick":
+        spec.grid = spec.grid[::2]
+        spec.dfs_max = min(spec.dfs_max, 1500)
+        spec.rand_execs = 0
+        spec.rand_grid = []
+        spec.tail_execs = 10
+        spec.tail_boost = list(spec.tail_boost)[:4]
+        spec.tail_boost_execs = min(spec.tail_boost_execs, 2000)
         spec.mc_cfgs = list(spec.mc_cfgs)[:1]
     return spec
 
@@ -479,8 +496,11 @@ def _nost(spec, tier):
 
 def all_conc_specs(tier):
     """every concurrent specification that carries ownership ghost state and a MemModel instance"""
-    return [spec_unique(tier), spec_shared(tier), spec_wait(tier), spec_when(tier, ALL_STRATS + ANY_STRATS, "C09"),
-            spec_strand(tier), spec_pool(tier),
+    # the quick tier of the two library-wide properties runs every specification in a reduced form (each specification's
+    # own property runs it in full); the thorough tier runs them all in full
+    return [spec_unique(tier), _half(spec_shared(tier), tier), _half(spec_wait(tier), tier),
+            _half(spec_when(tier, ALL_STRATS + ANY_STRATS, "C09"), tier),
+            _half(spec_strand(tier), tier), _half(spec_pool(tier), tier),
             _lite(spec_wg(tier), tier), _lite(spec_comutex(tier), tier), _lite(spec_cosmutex(tier), tier),
             _lite(spec_await(tier), tier), _lite(spec_spin(tier), tier)]
 
@@ -489,10 +509,14 @@ def all_conc_specs(tier):
 def c03(rep, tier, seed):
     """everything released exactly once: ownership invariants of every concurrent spec + accounting on the code"""
     for spec in all_conc_specs(tier):
+        t0 = time.time()
         run_conc(rep, spec, tier, seed, {"C03"})
+        log("[C03] %s: %.0fs" % (spec.name, time.time() - t0))
     # sequential pipelines: allocation balance and functor captures after every enumerated program
     cfgs = [("Pipeline_C02_quick.cfg", "eager and lazy programs of length <= 2 (unique and shared sources): nothing remains"),
-            ("Pipeline_C12_quick.cfg", "lazy programs x start / abandon kinds: nothing remains")]
+            ("Pipeline_C12_deep.cfg", "four-core lazy programs x start / abandon kinds: nothing remains")]
+    if tier != "quick":
+        cfgs.append(("Pipeline_C12_quick.cfg", "lazy programs x start / abandon kinds: nothing remains"))
     seq.check_pipeline(rep, cfgs, {"C03"}, tier, crash_key=_inner_task_key)
     rep.assumptions += ["ownership is observed through instrumented payload/functor types and the model's ghost state"]
 
@@ -501,7 +525,9 @@ def c03(rep, tier, seed):
 def c04(rep, tier, seed):
     """no data races: MemModel (C++20 happens-before) driven by the memory orders the code passes"""
     for spec in all_conc_specs(tier):
+        t0 = time.time()
         run_conc(rep, spec, tier, seed, {"C04"})
+        log("[C04] %s: %.0fs" % (spec.name, time.time() - t0))
     rep.assumptions += ["plain accesses are transcribed from the code by hand; atomic operations and their memory orders "
                         "are recorded from the running code", "SC exploration + vector clocks (races of SC executions)"]
 
